@@ -39,7 +39,9 @@ inductive AShape (H : Nat → Nat) (P : List (Nat × Nat) → Nat → Nat → Na
     (a : AmpInv) :
     AmpInv → Res → List (Nat × Res) → Prop
   | same (r : Res) (msgs : List (Nat × Res)) (hr : ∀ k p ht, r ≠ .settle k p ht)
-      (hm : ∀ k kind p ht, (k, Res.settle kind p ht) ∉ msgs) : AShape H P drop ctx a a r msgs
+      (hm : ∀ k kind p ht, (k, Res.settle kind p ht) ∉ msgs) (hadd : r.addsHtlc = false)
+      (hmsgs : msgs = [] ∨ ∃ fr, msgs = afailMsgs (aview ctx a) fr) :
+      AShape H P drop ctx a a r msgs
   | replaySettled (h : AHtlc) (p : Nat) (hm : h ∈ aview ctx a) (hk : h.base.key = ctx.key)
       (hs : h.base.state = .settled) (hp : h.pre = some p) (hh : h.hash = ctx.hash)
       (hH : H p = h.hash) :
@@ -113,11 +115,33 @@ theorem areplay_cases (ctx : Ctx) (view : List AHtlc) {r : Res} (hr : areplay H 
             · exact Classical.byContradiction (fun x => c (Or.inr x))
           exact ⟨h, p, hm, hk, hs, hp, c'.1, c'.2, rfl⟩
 
+theorem areplay_not_adds (ctx : Ctx) (view : List AHtlc) {r : Res} (hr : areplay H ctx view = some r) :
+    r.addsHtlc = false := by
+  unfold areplay at hr
+  cases hf : view.find? (fun h => h.base.key == ctx.key) with
+  | none => simp [hf] at hr
+  | some h =>
+    simp only [hf] at hr
+    cases hs : h.base.state with
+    | canceled => simp [hs] at hr; subst hr; rfl
+    | accepted => simp [hs] at hr; subst hr; rfl
+    | settled =>
+      simp only [hs] at hr
+      cases hp : h.pre with
+      | none => simp [hp] at hr; subst hr; rfl
+      | some p =>
+        simp only [hp] at hr
+        by_cases c : h.hash ≠ ctx.hash ∨ H p ≠ h.hash
+        · rw [if_pos c] at hr; cases hr; rfl
+        · rw [if_neg c] at hr; cases hr; rfl
+
 theorem anotify_shape (ctx : Ctx) (a : AmpInv) :
     AShape H P drop ctx a (anotify H P drop ctx a).1 (anotify H P drop ctx a).2.1 (anotify H P drop ctx a).2.2 := by
   have nofail : ∀ (fr : FailReason) (ht : Int) (msgs : List (Nat × Res)),
-      (∀ k kind p h, (k, Res.settle kind p h) ∉ msgs) → AShape H P drop ctx a a (.fail fr ht) msgs :=
-    fun fr ht msgs hm => AShape.same _ _ (by intro k p h e; cases e) hm
+      (∀ k kind p h, (k, Res.settle kind p h) ∉ msgs) →
+      (msgs = [] ∨ ∃ fr', msgs = afailMsgs (aview ctx a) fr') →
+      AShape H P drop ctx a a (.fail fr ht) msgs :=
+    fun fr ht msgs hm hs => AShape.same _ _ (by intro k p h e; cases e) hm rfl hs
   have nom : ∀ k kind p h, (k, Res.settle kind p h) ∉ ([] : List (Nat × Res)) := by
     intro k kind p h hm; cases hm
   unfold anotify
@@ -125,50 +149,51 @@ theorem anotify_shape (ctx : Ctx) (a : AmpInv) :
   cases hr : areplay H ctx (aview ctx a) with
   | some r =>
     simp only
+    have hna := areplay_not_adds ctx _ hr
     rcases areplay_cases ctx _ hr with hns | ⟨h, p, hm, hk, hs, hp, hh, hH, rfl⟩
     · cases r with
       | settle k p ht => exact absurd rfl (hns k p ht)
-      | fail fr ah => exact AShape.same _ _ hns nom
-      | accept k => exact AShape.same _ _ hns nom
-      | err => exact AShape.same _ _ hns nom
+      | fail fr ah => exact AShape.same _ _ hns nom hna (Or.inl rfl)
+      | accept k => exact AShape.same _ _ hns nom hna (Or.inl rfl)
+      | err => exact AShape.same _ _ hns nom hna (Or.inl rfl)
     · exact AShape.replaySettled h p hm hk hs hp hh hH
   | none =>
     simp only
     by_cases c0 : (ctx.amp && ctx.mpp.isNone) = true
-    · rw [if_pos c0]; exact nofail _ _ _ nom
+    · rw [if_pos c0]; exact nofail _ _ _ nom (Or.inl rfl)
     rw [if_neg c0]
     cases he : effMpp ctx with
-    | none => exact nofail _ _ _ nom
+    | none => exact nofail _ _ _ nom (Or.inl rfl)
     | some ta =>
       obtain ⟨total, addr⟩ := ta
       simp only
       by_cases c1 : (!ctx.amp) = true
-      · rw [if_pos c1]; exact nofail _ _ _ nom
+      · rw [if_pos c1]; exact nofail _ _ _ nom (Or.inl rfl)
       rw [if_neg c1]
       by_cases c2 : a.state ≠ .open
-      · rw [if_pos c2]; exact nofail _ _ _ nom
+      · rw [if_pos c2]; exact nofail _ _ _ nom (Or.inl rfl)
       rw [if_neg c2]
       by_cases c3 : addr ≠ a.payAddr
-      · rw [if_pos c3]; exact nofail _ _ _ nom
+      · rw [if_pos c3]; exact nofail _ _ _ nom (Or.inl rfl)
       rw [if_neg c3]
       by_cases c4 : total = 0 ∨ total < a.value
-      · rw [if_pos c4]; exact nofail _ _ _ (afailMsgs_no_settle _ _)
+      · rw [if_pos c4]; exact nofail _ _ _ (afailMsgs_no_settle _ _) (Or.inr ⟨_, rfl⟩)
       rw [if_neg c4]
       by_cases c5 : ((aview ctx a).filter (fun h => h.base.state == .accepted)).any
           (fun h => decide (h.base.mppTotal ≠ total)) = true
-      · rw [if_pos c5]; exact nofail _ _ _ (afailMsgs_no_settle _ _)
+      · rw [if_pos c5]; exact nofail _ _ _ (afailMsgs_no_settle _ _) (Or.inr ⟨_, rfl⟩)
       rw [if_neg c5]
       by_cases c6 : expiryTooSoon ctx.expiry ctx.height ctx.rejectDelta = true
-      · rw [if_pos c6]; exact nofail _ _ _ nom
+      · rw [if_pos c6]; exact nofail _ _ _ nom (Or.inl rfl)
       rw [if_neg c6]
       by_cases c7 : expiryTooSoon ctx.expiry ctx.height a.finalCltv = true
-      · rw [if_pos c7]; exact nofail _ _ _ nom
+      · rw [if_pos c7]; exact nofail _ _ _ nom (Or.inl rfl)
       rw [if_neg c7]
       by_cases c8 : ctx.setID = 0
-      · rw [if_pos c8]; exact nofail _ _ _ nom
+      · rw [if_pos c8]; exact nofail _ _ _ nom (Or.inl rfl)
       rw [if_neg c8]
       by_cases c9 : a.htlcs.any (fun h => h.base.key == ctx.key) = true
-      · rw [if_pos c9]; exact AShape.same _ _ (by intro k p h e; cases e) nom
+      · rw [if_pos c9]; exact AShape.same _ _ (by intro k p h e; cases e) nom rfl (Or.inl rfl)
       rw [if_neg c9]
       have facts : AddFacts ctx a total addr := by
         refine ⟨by simpa using c1, he, by simpa using c2, by simpa using c3, by omega, by omega, ?_,
@@ -184,7 +209,7 @@ theorem anotify_shape (ctx : Ctx) (a : AmpInv) :
       by_cases d1 : sumAmt (((aview ctx a).filter (fun h => h.base.state == .accepted)).map (·.base)) + ctx.amt < total
       · rw [if_pos d1]
         by_cases d0 : ((aview ctx a).any fun g => g.base.state == .settled) = true
-        · rw [if_pos d0]; exact AShape.same _ _ (by intro k p h e; cases e) nom
+        · rw [if_pos d0]; exact AShape.same _ _ (by intro k p h e; cases e) nom rfl (Or.inl rfl)
         · rw [if_neg d0]
           refine AShape.partialAdd total addr facts ?_ d1
           intro g hg hs
@@ -197,7 +222,7 @@ theorem anotify_shape (ctx : Ctx) (a : AmpInv) :
           (aacc ctx a).all (fun g => decide (H (P (adescs ctx (aacc ctx a)) g.share g.index) = g.hash)))) = true
       · rw [hacc, if_pos d2]
         by_cases d3 : ((aview ctx a).any fun g => g.base.state == .settled) = true
-        · rw [if_pos d3]; exact AShape.same _ _ (by intro k p h e; cases e) nom
+        · rw [if_pos d3]; exact AShape.same _ _ (by intro k p h e; cases e) nom rfl (Or.inl rfl)
         · rw [if_neg d3]
           refine AShape.reconFail total addr facts ?_
           intro g hg hs
